@@ -76,6 +76,7 @@ struct TagScope {
 };
 size_t live_blocks(uint8_t tag);                    // live arena blocks with this tag
 size_t live_bytes(uint8_t tag);
+uint64_t reused_blocks();                            // allocations served from a freed block (--param reuse=1)
 uint64_t alloc_count(uint8_t tag);                   // blocks ever allocated with this tag in this case
 bool is_live(const void* p);                        // p points into a live arena block
 bool is_freed(const void* p);
